@@ -31,5 +31,7 @@ def run(ctx):
     cfg = QUICK if ctx.quick else THOROUGH
     with tlc.Scratch('c03') as sc:
         cases = P.generate(ctx, sc, cfg)
+        for T, v in P.size_cases(not ctx.quick):
+            cases.append({'id': len(cases) + 1, 'T': T, 'v': v, 'forms': {}})
         traces = core.pmap(plan, cases)
         P.codec_common_finish(ctx, sc, cases, traces)
